@@ -59,3 +59,8 @@ Definition same_but_bookkeeping (d d' : dbstate) : Prop :=
 Definition id_conflict (ms : list mig) (d : dbstate) : bool :=
   existsb (fun m => existsb (fun r => Z.eqb (fst r) (Z.of_N (m_version m)) && nonempty (m_id m) && nonempty (snd r)
                                       && negb (String.eqb (snd r) (m_id m))) (db_rows d)) ms.
+
+(* ---------- how many connection calls one instance can make (C11, termination) ---------- *)
+Definition plan_bound (o : opts) (ms : list mig) : nat :=
+  S (fold_right (fun m acc => List.length (stmts_of o m) + 1 + acc) 0 ms).
+Definition steps_bound (o : opts) (ms : list mig) : nat := 5 + plan_bound o ms.
